@@ -299,7 +299,7 @@ func (e *Exports) Validate(vr *ValidationResults) error {
 // HasExportContainingSubject checks if the export list has an export with the provided subject
 func (e *Exports) HasExportContainingSubject(subject Subject) bool {
 	for _, s := range *e {
-		if subject.IsContainedIn(s.Subject) {
+		if s != nil && subject.IsContainedIn(s.Subject) {
 			return true
 		}
 	}
